@@ -187,6 +187,12 @@ class Effects:
                                 self._add(out, r, field_path(e.recv) or "<local>", how, org)
                             if e.name in ("write",) or e.name == "tofile":
                                 pass
+                        if e.name in ("read", "readline", "read_byte", "readinto") and not e.mutates and "self" in roots(e.recv):
+                            # reading from a mapping / handle the structure keeps open moves its cursor: the next read starts elsewhere
+                            from .common import typed_fields
+                            fld_ = outer_field(e.recv)
+                            if fld_ and "mmap" in typed_fields(self.prog, ctx).get(fld_, set()):
+                                self._add(out, "self", field_path(e.recv) or fld_, "cursor", org)
                         if e.name == "tofile" and e.args:
                             for r in roots(e.args[0]):
                                 self._add(out, "ext" if r in ("ext",) or r.startswith("param:") else r, "<file>", "io", org)
